@@ -194,6 +194,7 @@ func checkC11(p *Prog, res *Result, tier string) {
 	res.rule("C11-R3", "iterator keys are checked against the end bound; an iterator reads at the caller's timestamp or at one read from the oracle, never at a constant", 3)
 	res.rule("C11-R5", "metrics wrapper forwards each overridden method exactly once with parameters in order", 8)
 	res.rule("C11-R6", "Get returns the ErrKeyNotFound sentinel itself", 3)
+	res.rule("C11-R11", "an adapter does not turn a failure of its engine into success or end-of-data: the error of every engine call in badger / tikv is returned (as is, wrapped or translated after a classifying test) on every path on which it can be non-nil", 20)
 	res.rule("C11-R9", "deleting a key that is not there is not an error in any adapter: Del never reports the ErrKeyNotFound sentinel (the compaction deletes a record it has already deleted, and treats any error as a failed delete)", 3)
 	res.rule("C11-R10", "an adapter that advertises native TTL hands the ttl of every write form (Put, PutIfNotExist, CAS) to the engine (or records it with the staged operation)", 6)
 	res.rule("C11-R8", "the in-process engine's iterator yields snapshot copies: live skip-list elements are dereferenced only under the store lock (C19-R3)", 2)
@@ -238,6 +239,32 @@ func checkC11(p *Prog, res *Result, tier string) {
 				res.bad("C11-R1", construct, p.pos(f.Pos()), "the operation can never report a failed condition")
 			default:
 				res.ok("C11-R1", construct, p.pos(f.Pos()), strings.Join(cls, ", "))
+			}
+			// the condition is evaluated inside the batch's own engine transaction: an operation that reads through the
+			// adapter's store-level methods (each of which runs in a transaction of its own) is not covered by the
+			// engine's conflict detection between its read and the batch's commit
+			if ap != "pkg/storage/memkv" {
+				c3 := fmt.Sprintf("%s.%s: condition read inside the batch's transaction", short, op.name)
+				storeImpl := p.implIn(r.KVGet, ap)
+				var outside ssa.CallInstruction
+				if storeImpl != nil && storeImpl.Signature.Recv() != nil {
+					st := storeImpl.Signature.Recv().Type()
+					for _, g := range withAnon(f) {
+						for _, c := range callsIn(g) {
+							if sc := c.Common().StaticCallee(); sc != nil && sc.Signature.Recv() != nil && types.Identical(sc.Signature.Recv().Type(), st) {
+								outside = c
+							}
+							if c.Common().IsInvoke() && c.Common().Method.Pkg() != nil && c.Common().Method.Pkg().Path() == modPath+"/pkg/storage" && c.Common().Method.Name() != "Key" && c.Common().Method.Name() != "Val" {
+								outside = c
+							}
+						}
+					}
+				}
+				if outside != nil {
+					res.bad("C11-R1", c3, p.pos(outside.Pos()), "the operation reads through a store-level method, i.e. in another transaction than the one its write is staged in: the engine tracks no read for the batch, so two batches whose conditions both held at their own reads both commit")
+				} else {
+					res.ok("C11-R1", c3, p.pos(f.Pos()), "no store-level call in the staged operation")
+				}
 			}
 			if op.name != "PutIfNotExist" {
 				c2 := fmt.Sprintf("%s.%s: compares before it writes", short, op.name)
@@ -285,6 +312,8 @@ func checkC11(p *Prog, res *Result, tier string) {
 	checkWrapperTransparency(p, r, res)
 	checkNotFoundIdentity(p, r, res, "C11-R6")
 	checkDelIdempotent(p, r, res, "C11-R9")
+	checkReadersDoNotMutate(p, r, res, "C11-R3")
+	checkAdapterErrorPreservation(p, r, res, "C11-R11")
 	checkNativeTTLHonoured(p, r, res, "C11-R10")
 	checkPartitionClamp(p, r, res, "C11-R7")
 	{
@@ -1612,4 +1641,127 @@ func ttlUsed(p *Prog, f *ssa.Function, prm *ssa.Parameter, depth int) (bool, str
 		}
 	}
 	return false, ""
+}
+
+// checkAdapterErrorPreservation: error discipline of the engine adapters (the library calls of badger / tikv that
+// return an error, judged in the adapter function or function literal that makes them).
+func checkAdapterErrorPreservation(p *Prog, r *Roles, res *Result, rule string) {
+	inScope := func(f *ssa.Function) bool {
+		if f.Pkg == nil {
+			return false
+		}
+		pp := f.Pkg.Pkg.Path()
+		return pp == modPath+"/pkg/storage/badger" || pp == modPath+"/pkg/storage/tikv"
+	}
+	fallible := func(c ssa.CallInstruction) (string, bool) {
+		cc := c.Common()
+		var pkgPath, name string
+		if cc.IsInvoke() {
+			if cc.Method.Pkg() == nil {
+				return "", false
+			}
+			pkgPath, name = cc.Method.Pkg().Path(), cc.Method.Name()
+		} else if sc := cc.StaticCallee(); sc != nil && sc.Pkg != nil {
+			pkgPath, name = sc.Pkg.Pkg.Path(), sc.Name()
+			if sc.Signature.Recv() != nil {
+				name = "(" + types.TypeString(sc.Signature.Recv().Type(), func(*types.Package) string { return "" }) + ")." + name
+			}
+		} else {
+			return "", false
+		}
+		// (an adapter may name the engine's iterator through a small interface of its own: invokes on it are engine calls)
+		ownIface := cc.IsInvoke() && (pkgPath == modPath+"/pkg/storage/badger" || pkgPath == modPath+"/pkg/storage/tikv")
+		if !(strings.Contains(pkgPath, "dgraph-io/badger") || strings.Contains(pkgPath, "tikv/client-go") || ownIface) {
+			return "", false
+		}
+		if strings.HasSuffix(name, "Rollback") || strings.HasSuffix(name, "Close") || strings.HasSuffix(name, "Discard") {
+			return "", false
+		}
+		// one named exception: badger's stand-alone Del discards the error of Txn.Delete and returns the commit's.
+		// Txn.Delete fails only for keys that cannot have been stored either (empty, oversized, reserved prefix) or on
+		// a read-only / discarded transaction, which this freshly opened update transaction is not.
+		if strings.HasSuffix(name, "(*Txn).Delete") && funcName(c.Parent()) == "(*pkg/storage/badger.store).Del" {
+			return "", false
+		}
+		return name, true
+	}
+	errflowAcceptFailure = true
+	defer func() { errflowAcceptFailure = false }()
+	checkErrorPreservation(p, res, rule, inScope, fallible, "a failed engine operation would be reported as success (or as the end of the data): the layers above act on an answer the engine never gave")
+}
+
+// checkReadersDoNotMutate: the in-process engine's read operations (Get, iterator construction and what they call)
+// change the skip list only by inserting a seek marker and removing that very element again - never by key: a
+// removal by key deletes a stored record when the marker's key happens to exist.
+func checkReadersDoNotMutate(p *Prog, r *Roles, res *Result, rule string) {
+	mp := p.ssaPkg("pkg/storage/memkv")
+	var roots []*ssa.Function
+	for _, m := range []*types.Func{r.KVIter, r.KVGet} {
+		if f := p.implIn(m, "pkg/storage/memkv"); f != nil {
+			roots = append(roots, f)
+		}
+	}
+	seen := map[*ssa.Function]bool{}
+	var work []*ssa.Function
+	work = append(work, roots...)
+	for len(work) > 0 {
+		f := work[0]
+		work = work[1:]
+		if seen[f] || f.Blocks == nil {
+			continue
+		}
+		seen[f] = true
+		for _, g := range withAnon(f) {
+			seen[g] = true
+			for _, c := range callsIn(g) {
+				if sc := c.Common().StaticCallee(); sc != nil && sc.Pkg == mp && !seen[sc] {
+					work = append(work, sc)
+				}
+			}
+		}
+	}
+	n := 0
+	var fs []*ssa.Function
+	for f := range seen {
+		fs = append(fs, f)
+	}
+	sort.Slice(fs, func(i, j int) bool { return funcName(fs[i]) < funcName(fs[j]) })
+	for _, f := range fs {
+		k := 0
+		for _, c := range callsIn(f) {
+			if !isEngineCall(c, "Remove", "RemoveElement", "RemoveFront", "RemoveBack", "Init") {
+				continue
+			}
+			n++
+			k++
+			top := f
+			for top.Parent() != nil {
+				top = top.Parent()
+			}
+			construct := fmt.Sprintf("%s: read path removes only its own seek marker #%d", funcName(top), k)
+			name := c.Common().StaticCallee().Name()
+			own := false
+			if name == "RemoveElement" {
+				// the element comes from a Set call of the same (outermost) function
+				for _, v := range allCellValuesOpt(p, c.Common().Args[len(c.Common().Args)-1], false) {
+					if sc, ok := p.resolveDeep(v).(*ssa.Call); ok && isEngineCall(sc, "Set") {
+						own = true
+					} else if cst, isC := v.(*ssa.Const); isC && cst.Value == nil {
+						// nil: nothing inserted
+					} else {
+						own = false
+						break
+					}
+				}
+			}
+			if own {
+				res.ok(rule, construct, p.pos(c.Pos()), "RemoveElement of the element this read inserted")
+			} else {
+				res.bad(rule, construct, p.pos(c.Pos()), "a read operation of the in-process engine removes from the skip list by key (or an element it did not insert): when a read starts exactly at a stored key, no marker is inserted and the removal deletes that record - a List or Get silently erases an index or version record")
+			}
+		}
+	}
+	if n == 0 {
+		res.und(rule, "memkv read path", "-", "no removal of a seek marker found on the read path (role no longer resolves)")
+	}
 }
